@@ -11,13 +11,18 @@ def _call(chunk):
     return [_FN(x) for x in chunk]
 
 
-def pmap(fn, items, procs=None, chunk=64):
-    """Ordered map.  fn must be a module-level function or closure created before the fork."""
+def pmap(fn, items, procs=None, chunk=64, always=False):
+    """Ordered map.  fn must be a module-level function or closure created before the fork.
+    Small inputs run inline unless always=True - use that when fn starts threads (thread pools
+    created in the parent would be dead in children forked later)."""
     global _FN
     items = list(items)
+    if not items:
+        return []
     procs = procs or int(os.environ.get("VERIF_PROCS", "14"))
-    if procs <= 1 or len(items) < 2 * chunk:
+    if procs <= 1 or (not always and len(items) < 2 * chunk):
         return [fn(x) for x in items]
+    chunk = max(1, min(chunk, (len(items) + procs - 1) // procs))
     _FN = fn
     chunks = [items[i:i + chunk] for i in range(0, len(items), chunk)]
     ctx = mp.get_context("fork")
